@@ -485,6 +485,21 @@ fn large_sizes(ctx: &Ctx, thorough: bool) -> (usize, u64) {
             }
         }
     }
+    // with a trace-level logger installed (log macros evaluate their arguments only then)
+    for m in [1usize, 2, 3, 8, 17, 64] {
+        let r = crate::common::with_trace_logging(|| (large_size_history::<f64>(m, &|x| x as f64 * 0.5), large_size_history::<u32>(m, &|x| x as u32)));
+        for (vt, r) in [("f64", r.0), ("u32", r.1)] {
+            match r {
+                Ok(n) => steps += n,
+                Err(w) => {
+                    if !reported {
+                        reported = true;
+                        ctx.violation(&format!("logging:{}", vt), &format!("{} tracker with a trace-level logger installed, {}", vt, w), json!({"kind": "logging", "vtype": vt, "m": m}));
+                    }
+                }
+            }
+        }
+    }
     for m in [1usize, 2, 3, 5, 8] {
         for (vt, r) in [("f64", long_reset_history::<f64>(m, &|x| x as f64 * 0.5)), ("u32", long_reset_history::<u32>(m, &|x| x as u32))] {
             match r {
@@ -611,7 +626,7 @@ pub fn run(ctx: &Ctx) -> i32 {
         "spaces": spaces,
         "direct_sequences_from_new": {"sequences": stats.0, "steps": stats.1, "configs_m_depth": seqs},
         "search_run_twice_counts_equal": true,
-        "large_sizes": {"sizes": nsizes, "checked_steps": lsteps, "what": "every m in 9..=300, 2^k-1,2^k,2^k+1 for k=9..17, 1000, 5000, 50000, 100003 (thorough: 2^20-1..2^20+1, 3000001): one structured 6-phase history per size and value type from new(), every update checked (slot value, reported max against an ordered multiset of slot minima, is_update_possible), whole node array checked after each phase; plus 70000 cycles of (3 updates, reset) for m in {1,2,3,5,8} with the node array compared with a new tracker after every reset; not exhaustive in the history"},
+        "large_sizes": {"sizes": nsizes, "checked_steps": lsteps, "what": "every m in 9..=300, 2^k-1,2^k,2^k+1 for k=9..17, 1000, 5000, 50000, 100003 (thorough: 2^20-1..2^20+1, 3000001): one structured 6-phase history per size and value type from new(), every update checked (slot value, reported max against an ordered multiset of slot minima, is_update_possible), whole node array checked after each phase; plus 70000 cycles of (3 updates, reset) for m in {1,2,3,5,8} with the node array compared with a new tracker after every reset; the six-phase history again for m in {1,2,3,8,17,64} with a trace-level logger installed; not exhaustive in the history"},
     });
     ctx.finish(
         "model_checking",
@@ -626,6 +641,13 @@ pub fn run(ctx: &Ctx) -> i32 {
 
 pub fn replay(_ctx: &Ctx, case: &Value) -> Result<(bool, String), String> {
     let m = case["m"].as_u64().ok_or("m")? as usize;
+    if case["kind"].as_str() == Some("logging") {
+        let r = crate::common::with_trace_logging(|| if case["vtype"].as_str() == Some("f64") { large_size_history::<f64>(m, &|x| x as f64 * 0.5) } else { large_size_history::<u32>(m, &|x| x as u32) });
+        return Ok(match r {
+            Ok(n) => (false, format!("{} steps fine", n)),
+            Err(w) => (true, w),
+        });
+    }
     if case["kind"].as_str() == Some("long-history") {
         let r = if case["vtype"].as_str() == Some("f64") { long_reset_history::<f64>(m, &|x| x as f64 * 0.5) } else { long_reset_history::<u32>(m, &|x| x as u32) };
         return Ok(match r {
